@@ -183,9 +183,38 @@ func (sm *SegmentMicroIndex) loadSearchMetadata() error {
 	}
 
 	sm.loadedSearchMetadata = true
-	sm.BlockSummaries = blockSum
+	sm.BlockSummaries = dropUncommittedBlocks(sm.RecordCount, blockSum, allBmi)
 	sm.BlockSearchInfo = allBmi
 	return nil
+}
+
+// A flush appends to the block summary file before it updates the segment's
+// metadata. If the process died in between, the file has blocks that the
+// metadata (record count, column names, stats) does not know about; serving
+// them gives records with missing columns and searches that never finish.
+func dropUncommittedBlocks(recordCount int, blockSum []*structs.BlockSummary,
+	allBmi *structs.AllBlksMetaInfo) []*structs.BlockSummary {
+
+	if recordCount <= 0 {
+		return blockSum
+	}
+
+	numRecs := 0
+	for i, bSum := range blockSum {
+		numRecs += int(bSum.RecCount)
+		if numRecs > recordCount {
+			if allBmi != nil {
+				for blkNum := range allBmi.AllBmh {
+					if int(blkNum) >= i {
+						delete(allBmi.AllBmh, blkNum)
+					}
+				}
+			}
+			return blockSum[:i]
+		}
+	}
+
+	return blockSum
 }
 
 func (smi *SegmentMicroIndex) readCmis(blocksToLoad map[uint16]map[string]bool,
@@ -400,6 +429,7 @@ func GetSearchInfoAndSummary(segkey string) (*structs.AllBlksMetaInfo, []*struct
 
 	// if found smi then load it for future
 	if ok {
+		blockSum = dropUncommittedBlocks(smi.RecordCount, blockSum, allBmi)
 		smi.loadedSearchMetadata = true
 		smi.BlockSummaries = blockSum
 		smi.BlockSearchInfo = allBmi
